@@ -615,7 +615,7 @@ func parent(spec Spec) {
 		"wall_s":      float64(int(time.Since(start).Seconds()*100)) / 100,
 		"violations":  unlisted,
 	}
-	if os.Getenv("VERIF_REPLAY") == "" {
+	if os.Getenv("VERIF_REPLAY") == "" && os.Getenv("VERIF_NO_EVIDENCE") == "" {
 		eb, _ := json.MarshalIndent(ev, "", " ")
 		os.MkdirAll(filepath.Join(Root, "evidence"), 0o755)
 		if err := os.WriteFile(filepath.Join(Root, "evidence", spec.Prop+".json"), append(eb, '\n'), 0o644); err != nil {
